@@ -2,6 +2,7 @@ package props
 
 import (
 	"fmt"
+	"math/big"
 	"math/rand"
 	"os"
 	"strings"
@@ -106,6 +107,22 @@ func (g *c07Gen) walk(src *mgen.Type, vecN int, vecSc bool, constOnly bool, maxL
 					}
 				}
 				idx = append(idx, fmt.Sprintf("<%d x i32> <%s>", n, strings.Join(es, ", ")))
+				forms = append(forms, form)
+			} else if rng.Intn(6) == 0 {
+				// the field number spelled with a literal beyond i32: LLVM reads an i32 literal modulo 2^32
+				v := new(big.Int).SetInt64(int64(structIdx))
+				k := []*big.Int{new(big.Int).Lsh(big.NewInt(1), 32), new(big.Int).Lsh(big.NewInt(1), 63), new(big.Int).Lsh(big.NewInt(1), 64), new(big.Int).Lsh(big.NewInt(3), 64)}[rng.Intn(4)]
+				form := "struct-i32-literal-beyond-32-bits"
+				if rng.Intn(3) == 0 {
+					v.Sub(v, k)
+					form += "-negative"
+				} else {
+					v.Add(v, k)
+				}
+				if k.BitLen() > 33 {
+					form += "-and-beyond-int64"
+				}
+				idx = append(idx, "i32 "+v.String())
 				forms = append(forms, form)
 			} else {
 				idx = append(idx, fmt.Sprintf("i32 %d", structIdx))
